@@ -9,10 +9,20 @@ export GOFLAGS=-mod=mod GOPROXY=off GOSUMDB=off GOTOOLCHAIN=local
 lc=$(echo "$ID" | tr 'A-Z' 'a-z')
 mkdir -p "$VERIF_DIR/bin" "$VERIF_DIR/build" "$VERIF_DIR/evidence"
 OV="$VERIF_DIR/build/overlay.$lc.$$.json"
-python3 "$VERIF_DIR/tools/mkoverlay.py" "$OV" ${VERIF_EXTRA_OVERLAY:-} || exit 2
+EXTRA="${VERIF_EXTRA_OVERLAY:-}"
+PRE="$VERIF_DIR/engine/checks/$lc/prebuild.sh"
+PREDIR=""
+if [ -f "$PRE" ]; then
+  # a check may generate additional overlay entries from the current tree (e.g. instrumented copies)
+  PREDIR="$VERIF_DIR/build/pre.$lc.$$"
+  mkdir -p "$PREDIR"
+  if ! bash "$PRE" "$PREDIR" ; then echo "HARNESS-ERROR $ID: prebuild failed" >&2; rm -rf "$PREDIR"; exit 2; fi
+  EXTRA="$EXTRA $PREDIR/overlay.json"
+fi
+python3 "$VERIF_DIR/tools/mkoverlay.py" "$OV" $EXTRA || exit 2
 BIN="$VERIF_DIR/bin/$lc.$$"
-trap 'rm -f "$OV" "$BIN"' EXIT
-if ! (cd "$VERIF_REPO" && go build -overlay "$OV" -tags verif -o "$BIN" "./internal/zzverif/checks/$lc") ; then
+trap 'rm -rf "$OV" "$BIN" "$PREDIR"' EXIT
+if ! (cd "$VERIF_REPO" && go build -overlay "$OV" -tags verif ${VERIF_GOBUILD_FLAGS:-} -o "$BIN" "./internal/zzverif/checks/$lc") ; then
   echo "HARNESS-ERROR $ID: build failed" >&2
   exit 2
 fi
